@@ -736,8 +736,9 @@ def eq2sdss(ra_in, dec_in, dtype="f8"):
     # generate clambda, ceta
     # do things in place to save memory
 
-    # clambda = -arcsin( x ) (not a copy clambda=x)
-    arcsin(x, x)
+    # clambda = -arcsin( x ) (not a copy clambda=x); written as arctan2
+    # to keep the precision next to the survey poles
+    arctan2(x, np.hypot(y, z), x)
     clambda = x
     clambda *= -1
 
